@@ -15,6 +15,7 @@ from ..core import hx
 from ..ref import wire, keys as RK, sig as RS, pk as RPK
 from .. import pool
 
+W0_COUNTER = 'C18_fingerprints'   # thorough tier: the repository's own tests run under this property's always-on monitor
 LEVEL = 'exploration'
 RULE = ('case = (key material, creation time, TZ) or (key, form) or (emitted field kind); one evaluation per fingerprint/keyid comparison; '
         'non-trivial = creation time at a 32-bit/sign boundary or with TZ != UTC, or an integer with leading zero bits, or a non-primary component, '
